@@ -144,8 +144,8 @@ func round1(x R) (int, int) {
 	return a, a
 }
 
-// round2 (deviation model only): nearest hundredth, returned as a rational; both neighbours at a tie.
-func round2(x R) (R, R) {
+// round2 (deviation model only): nearest hundredth as an index; both neighbours at a tie.
+func round2i(x R) (int, int) {
 	y := vrt.RMul(x, vrt.RInt(100))
 	a := vrt.RRound(y)
 	b := a
@@ -156,8 +156,16 @@ func round2(x R) (R, R) {
 			b = a - 1
 		}
 	}
+	return a, b
+}
+
+func round2(x R) (R, R) {
+	a, b := round2i(x)
 	return vrt.RDivInt(vrt.RInt(a), 100), vrt.RDivInt(vrt.RInt(b), 100)
 }
+
+// hundredthIndex recovers k from a value on the 0.01 grid.
+func hundredthIndex(x float64) int { return vrt.RRound(vrt.RMul(vrt.RFromFloat(x), vrt.RInt(100))) }
 
 func specImpact(c, i, a string) R {
 	one := vrt.RInt(1)
@@ -190,3 +198,6 @@ func specTempEq(baseTenth int, e, rl, rc string) R {
 }
 
 func in2(k float64, a, b int) bool { return k == tenth(a) || k == tenth(b) }
+
+// tenthIndex recovers k from a score on the tenth grid (nearest integer to 10*x).
+func tenthIndex(x float64) int { return vrt.RRound(vrt.RMul(vrt.RFromFloat(x), vrt.RInt(10))) }
